@@ -33,3 +33,8 @@ CLAIMS["C15"] = (
     "Generated non-square stacks through sort/remove/even-odd/flip/crop/bin in all four order combinations, array and file input (file written by the harness' own MRC writer), with the returned array and the written file compared to the image-list model. Held on everything explored.",
     "Binning compares full blocks only; int16 within 1; trusts the harness MRC writer/parser.",
 )
+CLAIMS["C16"] = (
+    "property-based test of the per-image transfer function against the closed-form Grant-Grigorieff gain on an integer frequency grid + metamorphic relations (composition, linearity, monotonicity in dose)",
+    "Generated non-square even/odd stacks, doses in any order (incl. 0), noise and plane waves, array (both orders) and file input, dose as list/array/file; the 2-D DFT of every output image is compared with exp(-dose/(2(0.245 f^-1.665+2.81))) times the input's DFT. Held on everything explored.",
+    "Trusts numpy.fft and the closed-form constants quoted in the property; float32 paths compared at 2e-5.",
+)
